@@ -7,6 +7,7 @@ From AS.Spec Require Import Terminal.
 From AS.Model Require Import Sgr.
 From AS.Proofs Require Import GenCodeTable SgrProofs GenFns.
 From AS.Proofs Require SgrJunk.
+From AS.Proofs Require FrakturScope.
 
 (* the repository's code table and the specification's terminal classify every code alike *)
 Theorem C18_table : forall c : N, gen_class c = spec_class c.
@@ -20,6 +21,26 @@ Theorem C18_parse : forall cs : list N, cs <> [] ->
     /\ teq (as_t (s2d (fun x => x) texts [])) (sgr spec_class tdefault cs).
 Proof. exact C18_parse_main. Qed.
 Print Assumptions C18_parse.
+
+(* KNOWN FINDING K7, delimited.  "A conforming terminal" is Spec/Terminal.v, which - like the library - files SGR 20
+   (Fraktur) under the fonts; ECMA-48 8.3.117 lets 23 ("not italicized, not fraktur") switch it off as well.
+   FrakturScope.sgr_ecma is the specification terminal with that one difference repaired.  The two agree on every code
+   list that does not select Fraktur (when the state it starts from has none), and on every code list without a 23; so
+   C18_parse and the other statements made with `sgr spec_class` hold for the ECMA-48 reading outside that class, and
+   inside it the difference is real (C18_K7_witness: after 20;23 the library and the specification keep Fraktur). *)
+Theorem C18_K7_scope_no_fraktur : forall t p,
+  FrakturScope.is_fraktur (t FONT_TYPE) = false -> FrakturScope.fraktur_free (acts spec_class p) = true ->
+  FrakturScope.sgr_ecma t p = sgr spec_class t p.
+Proof. exact FrakturScope.K7_scope_no_fraktur. Qed.
+Print Assumptions C18_K7_scope_no_fraktur.
+
+Theorem C18_K7_scope_no_23 : forall t p, FrakturScope.no_23 (acts spec_class p) = true ->
+  FrakturScope.sgr_ecma t p = sgr spec_class t p.
+Proof. exact FrakturScope.K7_scope_no_23. Qed.
+Print Assumptions C18_K7_scope_no_23.
+
+Example C18_K7_scope_examples := FrakturScope.k7_scope_examples.
+Example C18_K7_witness := FrakturScope.k7_witness.
 
 (* an empty sequence means reset *)
 Theorem C18_empty : forall ae, pgs_codes [] ae = OK [[CH_0]] /\ pgs_str [] ae = OK [[CH_0]]
